@@ -498,6 +498,9 @@ func init() {
 			}})
 			mk("d64", vC18High(64), vC18High(64)[:12])
 			mk("d512", vC18High(512), nil)
+			// the shared metric singletons under concurrent callers (scenario S19, explored by the
+			// cooperative scheduler; L2 build)
+			sh = append(sh, vC18SchedShards(tier)...)
 			return sh
 		},
 	})
